@@ -36,7 +36,17 @@ let show_oc (o : ClientMux.oc) = match o with
 let step _ cs os =
   let f = fields cs and o = fields os in
   let ws = (get f "k" = "ws") in
-  let sched = let s = get f "sched" in if s = "-" then [] else Stdlib.List.map parse_step (split_on ';' s) in
+  (* Z / z are harness-only steps (a call whose body fails to serialize): not part of the model's schedule *)
+  let sched = let s = get f "sched" in if s = "-" then [] else
+      Stdlib.List.map parse_step (Stdlib.List.filter (fun t -> t <> "Z" && t <> "z") (split_on ';' s)) in
+  (* ids are compared up to their order (rank): an id drawn by a call that never reached the wire
+     leaves a gap that says nothing; duplicates survive the compression *)
+  let ranks (l : BinNums.coq_N list) : BinNums.coq_N list =
+    (* counter-issued ids are small: compare them as integers (structural order on the binary
+       representation is not numeric order) *)
+    let li = Stdlib.List.map int_of_n l in
+    let u = Stdlib.List.sort_uniq compare li in
+    Stdlib.List.map (fun x -> let rec idx i = function [] -> 0 | y :: r -> if y = x then i else idx (i + 1) r in n_of_int (1 + idx 0 u)) li in
   let case = { ClientMux.c_ws = ws; c_n = n_of_hex (get f "n"); c_sched = sched } in
   let has_fwd = Stdlib.List.exists (fun st -> match st with ClientMux.Forward _ | ClientMux.FwdNotify _ -> true | _ -> false) sched in
   if has_fwd && get f "k" <> "async" then failwith "forward steps on a client without forward_message";
@@ -47,13 +57,13 @@ let step _ cs os =
   if nosub && not ws then failwith "sub=0 on a client without a notification subscriber";
   let model_of = if nosub then ClientMux.model_C04_nosub else ClientMux.model_C04 in
   let ok = if nosub then ClientMux.ok_C04_nosub else ClientMux.ok_C04 in
-  let model = model_of case in
+  let model = (let m = model_of case in { m with ClientMux.o_ids = ranks m.ClientMux.o_ids }) in
   if not (ok case model) then out := "BAD\tside=model\tclause=ok_C04(model)=false" :: !out;
   (match get_opt o "crash" with
    | Some c -> out := ("BAD\tside=impl\tclause=crash:" ^ c) :: !out
    | None ->
      let impl = { ClientMux.o_out = Stdlib.List.map parse_oc (split_on ',' (get o "out"));
-                  o_sub = nlist (get o "sub"); o_ids = nlist (get o "ids") } in
+                  o_sub = nlist (get o "sub"); o_ids = ranks (nlist (get o "ids")) } in
      if not (ok case impl) then out := ("BAD\tside=impl\tclause=ok_C04" ^ (if nosub then "_nosub" else "")) :: !out;
      (match get_opt o "gate" with
       | Some g when g <> "ok" -> out := ("BAD\tside=impl\tclause=schedule-not-realised:" ^ g) :: !out
